@@ -56,8 +56,14 @@ impl BinOp {
 //@fn BinOp.from_TokenKind
 }
 
+impl<'a> HeaderParser<'a> {
+//@fn HeaderParser.new
+//@fn HeaderParser.parse
+}
 impl<'a> Parser<'a> {
 //@decl Parser.text
+//@fn Parser.from
+//@fn Parser.finish
 //@fn Parser.parse_number
 //@fn Parser.parse_expr
 //@fn Parser.parse_factor
@@ -69,6 +75,10 @@ impl<'a> Parser<'a> {
 //@fn Parser.at
 //@fn Parser.skip
 //@fn Parser.expect
+}
+
+impl ParsedTestCase {
+//@fn ParsedTestCase.parse
 }
 
 } // verus!
